@@ -27,7 +27,7 @@ ASSUMPTIONS = [
     "attempt's timestamp; unvalidated runs are repeated",
     'the 60 s read timeout (accept-then-silent) is exercised in the thorough tier only',
 ]
-SUP_VERBS = ('supervisor', 'supervisor-slowsdk', 'supervisor-rejcfg')
+SUP_VERBS = ('supervisor', 'supervisor-slowsdk', 'supervisor-rejcfg', 'supervisor-start')
 TRUSTED = ['harness net.Addr whose Network() call marks the start of an attempt; llrp.TestDevice as the scripted reader; testify mock SDK']
 
 
@@ -48,6 +48,8 @@ def _only_of(line):
         only = 'slow ' + only
     if line.startswith('supervisor-rejcfg '):
         only = 'rej ' + only
+    if line.startswith('supervisor-start '):
+        only = 'start ' + only
     return only
 
 
